@@ -778,9 +778,12 @@ func (dsc *dataStoreCommand) copy(srcKeyName, destKeyName string, dds *dataStore
 		dds = dsc.ds
 	} else {
 		// to acquire two data store locks, the global lock must be held, to prevent
-		// a deadlock from two conflicting multi-data store operations
-		multiDataStoreLock.Lock()
-		defer multiDataStoreLock.Unlock()
+		// a deadlock from two conflicting multi-data store operations (a
+		// transaction holds it already)
+		if atomic.LoadUint32(&dsc.ds.multiLock) != dsc.id {
+			multiDataStoreLock.Lock()
+			defer multiDataStoreLock.Unlock()
+		}
 
 		dsc.lock()
 		defer dsc.unlock()
@@ -810,9 +813,12 @@ func (dsc *dataStoreCommand) move(srcKeyName, destKeyName string, dds *dataStore
 		defer dsc.unlock()
 	} else {
 		// to acquire two data store locks, the global lock must be held, to prevent
-		// a deadlock from two conflicting multi-data store operations
-		multiDataStoreLock.Lock()
-		defer multiDataStoreLock.Unlock()
+		// a deadlock from two conflicting multi-data store operations (a
+		// transaction holds it already)
+		if atomic.LoadUint32(&dsc.ds.multiLock) != dsc.id {
+			multiDataStoreLock.Lock()
+			defer multiDataStoreLock.Unlock()
+		}
 
 		dsc.lock()
 		defer dsc.unlock()
